@@ -141,7 +141,8 @@ def coq_run_shards(prop, shards, timeout=900, jobs=12):
     os.makedirs(GEN, exist_ok=True)
     paths = []
     for k, txt in enumerate(shards):
-        p = os.path.join(GEN, "cases_%s_%d.v" % (prop, k))
+        # private names: two runs of one property (other seeds, other trees) may overlap in time
+        p = os.path.join(GEN, "cases_%s_p%d_%d.v" % (prop, os.getpid(), k))
         open(p, "w").write(txt)
         paths.append(p)
 
@@ -159,8 +160,18 @@ def coq_run_shards(prop, shards, timeout=900, jobs=12):
         idx = [int(re.sub(r"%N|\s", "", x)) for x in body.split(";")] if body else []
         return (True, idx, out[-500:])
 
-    with ThreadPoolExecutor(max_workers=jobs) as ex:
-        return list(ex.map(one, paths))
+    try:
+        with ThreadPoolExecutor(max_workers=jobs) as ex:
+            return list(ex.map(one, paths))
+    finally:
+        for p in paths:
+            base = p[:-2]
+            for f in (p, base + ".vo", base + ".vok", base + ".vos", base + ".glob",
+                      os.path.join(os.path.dirname(p), "." + os.path.basename(base) + ".aux")):
+                try:
+                    os.remove(f)
+                except OSError:
+                    pass
 
 
 # Coq term printers used by case writers
@@ -313,7 +324,7 @@ class Ctx:
         self.violations = []      # (replay_path, suffix)
         self.known_printed = []
         self.notes = []
-        self.workdir = os.path.join(BUILD, "obs", prop)
+        self.workdir = os.path.join(BUILD, "obs", prop if self.seed == 1 else "%s-s%d" % (prop, self.seed))
         os.makedirs(self.workdir, exist_ok=True)
 
     def violation(self, replay_obj, found_input=True):
@@ -327,6 +338,12 @@ class Ctx:
             self.known_printed.append(line)
 
     def finish(self, coverage, assumptions, level="proof"):
+        import glob as _glob
+        for f in _glob.glob(os.path.join(GEN, "*_p%d*" % os.getpid())) + _glob.glob(os.path.join(GEN, ".*_p%d*" % os.getpid())):
+            try:
+                os.remove(f)
+            except OSError:
+                pass
         for l in self.known_printed:
             print(l)
         for path, found in self.violations[:20]:
